@@ -24,8 +24,16 @@ def trivia(src, style):
     """Comments / whitespace wherever the source already separates tokens with whitespace, and around punctuation."""
     toks = TOKEN.findall(src)
     out = []
-    fill = {"block": " /* c */ ", "line": " // c\n  ", "space": " \t\n "}[style]
+    # "varied" (round 13): what a comment may contain - runs of asterisks, slashes, the other comment opener, line breaks,
+    # wide characters - taken in turn; every one of them is one comment for the lexer of the pinned tree
+    varied = [" /* ** section ** */ ", " /* a * b *** c */ ", " /*\n * multi\n * line\n */ ", " /* // not a line comment */ ", " // /* not a block\n  ",
+              " /* / * / */ ", " /* caf\u00e9 \u4e2d \U0001F600 */ ", " /**/ ", " //\n  "]
+    fill = {"block": " /* c */ ", "line": " // c\n  ", "space": " \t\n ", "varied": None}[style]
+    k = 0
     for i, t in enumerate(toks):
+        if style == "varied":
+            fill = varied[k % len(varied)]
+            k += 1
         if t.isspace():
             out.append(fill)
         elif t in (";", ",", "=", "->", "::", "{", "}", "(", ")", "[", "]", "|", "&", "~") and not (t == "=" and i and toks[i - 1] in ("media", "headers", "status")):
